@@ -196,8 +196,15 @@ fn gen_eval(rng: &mut Rng, img: &RefImage, pc: u16, stack: bool, classes: &mut V
             EvalCmd { text: t, expect: Expect::Refuse("refused:stack_extension_off") }
         }
         14 => {
-            let name = if rng.bool() { label(rng).0 } else { "#1".to_string() };
-            let mn = rng.s(&["br", "brz", "BRnzp", "brn", "brp", "brnp"]);
+            // (a branch is refused whatever it names: a label, a literal, a label that does not exist, one far away)
+            let name = match rng.below(6) {
+                0 | 1 => label(rng).0,
+                2 => "#1".to_string(),
+                3 => rng.s(&["nowhere", "Alpha", "ALPHA", "nolabel", "x", "_"]).to_string(),
+                4 => rng.s(&["#255", "#-256", "x1", "#0"]).to_string(),
+                _ => format!("{}x", label(rng).0),
+            };
+            let mn = rng.s(&["br", "brz", "BRnzp", "brn", "brp", "brnp", "brzp", "BRNZ"]);
             EvalCmd { text: format!("{} {}", mn, name), expect: Expect::Refuse("refused:br") }
         }
         15 => match rng.below(3) {
